@@ -103,7 +103,7 @@ package age
 //@   fresh pt when err == nil && len(pt) > 0
 //@   modifies nothing
 
-//@ global digitsRe init "^[1-9][0-9]*$"     [C01 C05 C10 C14]
+//@ global digitsRe init "^[1-9][0-9]*$"     [C01 C04 C05 C10 C14]
 
 //@ const X25519LABEL := "age-encryption.org/v1/X25519"
 //@ const SCRYPTLABEL := "age-encryption.org/v1/scrypt"
